@@ -59,6 +59,7 @@ def case(task):
     desc, p, vacuum, Ns, seed = task
     res = {'task': [list(desc), p, vacuum, list(Ns)], 'err': {},
            'refmax': {}, 'raised': None}
+    gc.set_trim(desc, p)
     try:
         for N in Ns:
             rel, st, (X, Y, Z), inp = gc.build_core(
@@ -142,6 +143,9 @@ def build_tasks(tier, seed):
     tasks.append((('ds',), 4, False, (14, 20), seed))
     # vacuum option ('no matter') together with a cosmological constant
     tasks.append((('ds',), 4, True, (14, 20), seed))
+    # anti-de Sitter: Lambda < 0, with and without the vacuum option
+    tasks.append((('ads',), 4, True, (16, 32), seed))
+    tasks.append((('ads',), 4, False, (16, 32), seed))
     return tasks
 
 
@@ -191,7 +195,7 @@ def judge(run, task, res):
             # dt-quantities; the error relative to the result is larger at
             # equal resolution (it still has to fall at the scheme's order)
             ok, why = gc.converges(e_lo, e_hi, p, cap=gc.CAPS[p] * (
-                30 if desc[0] == 'scaled' else 1))
+                30 if desc[0] in ('scaled', 'ads') else 1))
         if not ok:
             kind = ('constraint' if k in CONSTRAINTS else
                     'dt' if k in DTKEYS else 'value')
